@@ -13,6 +13,29 @@ def claim(pid, technique, text, note, ref):
 
 from vf.props import PROPS, NOT_APPLICABLE  # noqa: E402
 
+# obligations added after the round-3 re-test (DESIGN §8): appended to the level note of each property
+R3_ADDED = {
+    "C01": "e.saveto-header (every accepted spelling of the save_to header, with/without entities sheet: prefixes declared)",
+    "C02": "f.render-history (render / add element / render on one Survey object)",
+    "C03": "f.prefix-siblings, f.indexed-repeats, f.root-reference, f.known-forms (F24-F26), b.uneven-chains (ancestor chains differing in length by 3)",
+    "C04": "d.type-table (37 documented type cells against an independent table), e.params-appearance (parameter-derived attributes next to appearance / body:: cells)",
+    "C05": "i.api-isolation (logic attached through the element API stays on its own bind, also across conversions)",
+    "C06": "h.instance-exprs (texts with 1-3 instance() expressions used twice; boundary finder with the cache model when memoised)",
+    "C07": "f.regenerate (itext closure on every regeneration from one Survey object, search() selects included)",
+    "C08": "c.languages-named (every translation is a language some column names, unlabelled choices included)",
+    "C09": "d.itemsets-csv-spellings ('list name' header spelling, caller's rows unchanged, second conversion of the same dict)",
+    "C10": "f.typed-defaults (real classifier: alias type cells x hyphenated / arithmetic / function defaults, exactly once)",
+    "C11": "a.routing.inner-space (runs of spaces inside title / version / style)",
+    "C12": "d.csv-text (real csv_to_dict on CSV text with line breaks inside quoted cells; csv.reader / StringIO models)",
+    "C13": "f.setting-truth (7 truth spellings incl. true()/false() of yes/no settings against the canonical spelling)",
+    "C14": "b.documents-independent (two generated documents kept alive do not share nodes; last-saved form kind)",
+    "C15": "a.shapes-unicode-space (characters str.isspace() accepts but XML does not: U+2000-200A, U+00A0, U+3000)",
+    "C16": "d.user-names (language / attribute / list names that coincide with internal field names)",
+    "C17": "a.catalogue[m28] (same-stem from-file selects with different extensions)",
+    "C18": "e.decode-stream (1-3 arbitrary bytes of validator output always decode, ASCII preserved)",
+    "C19": "f.sequence (two conversions in one process, every pair of declaration kinds)",
+    "C20": "b.levenshtein-small (E1: whole function vs textbook recursion, lengths 0-4)",
+}
 checks = []
 for pid, (technique, text, note, ref) in sorted(PROPS.items()):
     checks.append(
@@ -24,7 +47,7 @@ for pid, (technique, text, note, ref) in sorted(PROPS.items()):
             "replay_cmd_template": f"./check {pid} --replay {{path}}",
             "engine": "vf (CrossHair symbolic execution of the real functions + direct z3 encodings)",
             "level_claimed": {"category": "model_checking", "text": text, "design_ref": ref},
-            "level_note": note,
+            "level_note": note + " Added after round 3: " + R3_ADDED[pid] + ".",
             "technique": technique,
         }
     )
